@@ -478,6 +478,35 @@ def r08_18(run, model):
     c07.r07_20(run, model)
 
 
+def r08_19(run, model):
+    run.rule("R08.19", "a call has the result type its callee was given: lambda_lift rewrites the declared result of a function whose body "
+                       "type contains a closure (a predicate on the type), and the call arm of transform_expr takes the callee's converted "
+                       "result under the same predicate - a narrower test at the call leaves `var pair Tuple2_TFunc.. = make_scaler(3)` "
+                       "against a function that returns `Tuple2_closure_env..`")
+    ll = model.fn("lambda_lift", LIFT)
+    te = model.fn("transform_expr", LIFT)
+
+    def preds_on(f, what):
+        out = set()
+        for iff in list(S.find(f.body, "If")) + [a for m_ in S.find(f.body, "Match") for a in m_["arms"] if a.get("guard") is not None]:
+            cond = iff["cond"] if iff["k"] == "If" else iff["guard"]
+            t = S.norm_ws(run.facts.text(LIFT, cond["sp"]))
+            if not re.search(what, t):
+                continue
+            for c in S.walk(cond):
+                if c["k"] == "MethodCall" and S.is_path(c["recv"], "state") and re.search(r"closure", c["method"]):
+                    out.add(c["method"])
+        return out
+    sig = preds_on(ll, r"body_ty|ret_ty")
+    call = preds_on(te, r"ret_ty")
+    if not sig or not call:
+        raise AnalysisIncomplete(f"lift.rs: predicates deciding result types not found (signature: {sorted(sig)}, call: {sorted(call)})")
+    run.ob("R08.19", "transform_expr|the call arm converts a result type under the predicate lambda_lift uses for signatures", call == sig, site(LIFT, te.node["sp"]),
+           f"signature rewriting tests {sorted(sig)}; the call arm tests {sorted(call)}",
+           witness="fn make_scaler(k: int32) -> ((int32) -> int32, int32): the declaration returns Tuple2_closure_env_make_scaler_0_int32, the "
+                   "variable bound to its call is declared Tuple2_TFunc_int32_int32_int32 and the apply function is pruned")
+
+
 def r08_15(run, model):
     from rules import c07
     c07.r07_8(run, model, only=("EClosure",))
@@ -510,6 +539,7 @@ def run(run, model):
     run.try_rule(r08_16, model)
     run.try_rule(r08_17, model)
     run.try_rule(r08_18, model)
+    run.try_rule(r08_19, model)
     run.try_rule(r08_1, model)
     run.try_rule(r08_2, model)
     run.try_rule(r08_3, model)
